@@ -1,4 +1,68 @@
 package main
 
-// runC01S3 is filled in once the S3 builder exists.
-func runC01S3(r *Report) {}
+// C01 (S3 part): corpus-typecheck. Every program for which the generator
+// reports success must be syntactically valid, gofmt-idempotent and
+// type-check. Decided by go/parser, go/format and go/types on the emitted
+// files (no execution). Run WITHOUT TEMPLATE_DEBUG: the real artefact.
+
+import (
+	"bytes"
+	"go/format"
+	"os"
+	"path/filepath"
+	"strings"
+)
+
+var goagOwned = []string{"components.go", "handler.go", "router.go", "spec_file.go", "client.go"}
+
+func runC01S3(r *Report) {
+	s3, err := BuildS3(S3Options{TemplateDebug: false})
+	if err != nil {
+		r.Break("S3 build: %v", err)
+		return
+	}
+	defer s3.Close()
+	nOK, nFiles := 0, 0
+	for _, p := range s3.Programs {
+		key := p.Name
+		if p.GenExit != 0 {
+			if p.Expect == "ok" {
+				r.Undecided("C01/corpus-typecheck", key, "", "the generator now refuses a corpus spec it accepted on the pinned tree (cannot be judged): "+firstLines(p.GenStderr, 2))
+			} else {
+				r.OK("C01/corpus-typecheck", key, "", "generator reported an error (legitimate outcome)")
+			}
+			continue
+		}
+		var problems []string
+		for _, f := range goagOwned {
+			bs, err := os.ReadFile(filepath.Join(p.Dir, f))
+			if err != nil {
+				continue
+			}
+			nFiles++
+			out, ferr := format.Source(bs)
+			if ferr != nil {
+				problems = append(problems, f+": not valid Go syntax: "+ferr.Error())
+				continue
+			}
+			if !bytes.Equal(out, bs) {
+				problems = append(problems, f+": not gofmt-stable")
+			}
+		}
+		for _, e := range firstN(p.LoadErrs, 3) {
+			problems = append(problems, strings.TrimPrefix(e, s3.Root+"/"))
+		}
+		if p.Pkg == nil && len(p.LoadErrs) == 0 {
+			problems = append(problems, "package could not be loaded")
+		}
+		if len(problems) == 0 {
+			nOK++
+			r.OK("C01/corpus-typecheck", key, "", "")
+		} else {
+			r.Violation("C01/corpus-typecheck", key, "", "goag exited 0 but the generated package is broken: "+strings.Join(problems, " ;; "))
+		}
+	}
+	s3.coverageSummary(r)
+	r.Analysed["generated_files_checked"] = nFiles
+	r.FloorMin("corpus programs type-checked", nOK, 50)
+}
